@@ -541,3 +541,21 @@ func retVal(ret *ssa.Return, idx int) ssa.Value {
 	}
 	return v
 }
+
+// proxyRoot: the function which is the proxy that fn (the function doing the
+// proxy's channel operation) belongs to: fn itself or the nearest enclosing
+// function with a context parameter of its own — a proxy is run with the
+// stream's context, whether it is a method or the function literal handed to
+// the admission function.
+func proxyRoot(fn *ssa.Function) *ssa.Function {
+	top := fn
+	for nil == ctxParam(top) && nil != top.Parent() {
+		top = top.Parent()
+	}
+	if nil == ctxParam(top) {
+		for nil != top.Parent() {
+			top = top.Parent()
+		}
+	}
+	return top
+}
